@@ -456,6 +456,30 @@ theorem whitespace_across_boxes (b : KBox) (f : Bool) (h : IC b) :
     (pw b f).2 = (endsWithSp (leafText (pw b f).1) || ((leafText (pw b f).1).isEmpty && f)) :=
   pw_threaded b f h
 
+/-- Full strength since b7d94f7 (finding out-of-flow-container-spaces-not-collapsed repaired): the same for
+the inline content of **any** container — nothing is asked of the box's own `float` / `position` / class
+(`IFC`: not a text box, children are inline content in normal flow).  Inside a float, an absolutely
+positioned box, a running element, a cell, a block: no two consecutive spaces, no leading space after a
+collapsible one; the returned flag is the "ends with a collapsible space" state, and `false` for a running
+box. -/
+theorem whitespace_across_boxes_any_container (b : KBox) (f : Bool) (h : IFC b) :
+    noDoubleSp (leafText (pw b f).1) = true ∧
+    (f = true → startsWithSp (leafText (pw b f).1) = false) ∧
+    (pw b f).2 = ((endsWithSp (leafText (pw b f).1) || ((leafText (pw b f).1).isEmpty && f)) && !b.st.run) := by
+  obtain ⟨⟨h1, h2, h3⟩, h4⟩ := pw_ifc b f h
+  refine ⟨h1, h2, ?_⟩
+  unfold FlagOk at h3
+  rw [h4, h3]
+
+/-- `div(float: left)[ "a ", span[" b"] ]` → `a b`, as in normal flow. -/
+example :
+    let t (s : List Nat) : KBox := .mk .TextBox {} {} {} s [] []
+    let b : KBox := .mk .BlockBox { flt := true } {} {} [] [t [97, 32], .mk .InlineBox {} {} {} [] [t [32, 98]] []] []
+    IFC b ∧ b.inFlow = false ∧ leafText (pw b false).1 = [97, 32, 98] := by
+  refine ⟨?_, by rfl, by rfl⟩
+  simp [IFC, IC, ICL, KBox.isA, KBox.kind, KBox.text, KBox.kids]
+  decide
+
 /-- `span[ "a ", em[" b "], " c" ]` → `a b c`. -/
 example :
     let t (s : List Nat) : KBox := .mk .TextBox {} {} {} s [] []
